@@ -259,16 +259,23 @@ fn check_dec(c: &DecCase) -> Verdict {
 // ---- strings ---------------------------------------------------------------------------------
 
 fn string_case(d: &mut Dec) -> (String, String) {
-    let n = d.below(10);
+    // (one string in thirty is long: a block of 1-9 characters repeated 30-285 times)
+    let repeat = if d.below(30) == 29 { 30 + d.below(256) } else { 1 };
+    let n = if repeat > 1 { 1 + d.below(9) } else { d.below(10) };
     let s: String = (0..n)
         .map(|_| match d.below(6) {
             0 => *d.pick(&['\n', '\r', '\t', '\\', '\'', '"', '\n', '/']),
             1 => char::from_u32((d.u64() % 0x11_0000) as u32).unwrap_or('\u{fffd}'),
             2 => char::from_u32(d.below(0x20) as u32).unwrap(),
-            3 => *d.pick(&['/', ' ', '\u{a0}', '\u{2028}', '\u{85}', '😀', 'ß', '\u{301}', '{', '}', 'u', 'n']),
+            3 => *d.pick(&[
+                '/', ' ', '\u{a0}', '\u{2028}', '\u{85}', '😀', 'ß', '\u{301}', '{', '}', 'u', 'n',
+                // look-alikes of the delimiters and of the escape character
+                '\u{201c}', '\u{201d}', '\u{2018}', '\u{2019}', '\u{ab}', '\u{bb}', '\u{ff02}', '\u{2033}', '`', '\u{ff3c}', '\u{2216}',
+            ]),
             _ => (b' ' + d.below(95) as u8) as char,
         })
         .collect();
+    let s = s.repeat(repeat);
     // per-character style: raw / short escape / \u{..} with random case and leading zeros
     let mut text = String::from("\"");
     for c in s.chars() {
@@ -287,9 +294,8 @@ fn string_case(d: &mut Dec) -> (String, String) {
             (1, Some(e)) | (0, Some(e)) => text.push_str(e),
             _ => {
                 let hex = if d.bool() { format!("{:x}", c as u32) } else { format!("{:X}", c as u32) };
-                let zeros = "0".repeat(d.below(3));
-                // keep at most 8 digits in total
-                let zeros = if zeros.len() + hex.len() > 8 { String::new() } else { zeros };
+                // any number of leading zeros denotes the same character (usually 0-2, sometimes up to 12)
+                let zeros = "0".repeat(if d.below(6) == 5 { 3 + d.below(10) } else { d.below(3) });
                 text.push_str(&format!("\\u{{{zeros}{hex}}}"));
             }
         }
